@@ -76,6 +76,11 @@ CHECKS = {
         text="For every grammar of F_lr (1-3 mutually referring productions and a union; the reference placed at the head, in later alternatives, after optional/starred/lookahead/nullable prefixes, inside groups, captures and lookahead groups, after consuming prefixes, after empty literals) TLC decides LeftRecursive; Build must return an error exactly for those. Every accepted grammar is then parsed on all inputs up to length 3 under a 64 MiB stack limit: a crash is the consequence clause failing.",
         note="Production references go through one-member unions because dynamic struct types cannot refer to themselves directly; direct *T recursion is covered by the struct shapes of C19 and the example grammars of C06.",
         ref="4/C08, 3.8"),
+    "C14": dict(
+        technique="TLA+ spec Ebnf (EbnfOf, Norm) evaluated by TLC against the parsed output of the real Parser.String() for grammars compiled as named Go types; every clause (parseable, root first, defined exactly once, references defined, structure up to redundant parentheses, print-parse-print) decided in MC_Ebnf",
+        text="Grammars (curated nestings of every operator + seeded F_core) are generated as named Go struct types and compiled; the real String() text is parsed with the ebnf package and its tree handed to TLC, which compares its normal form with the normal form of the abstract EBNF the specification derives from the grammar, and checks production order/uniqueness and the round-trip flag.",
+        note="The ebnf package's parser is trusted to read the text. Anonymous/embedded struct types are covered by C19's struct shapes (String() must not panic).",
+        ref="4/C14, 3.12"),
     "C16": dict(
         technique="TLA+ spec StatefulLexer (Expand, Symbols, RoundTripStable invariant) checked by TLC; marshalled documents compared with the specification's serialised form; MC_StatefulLexer expectations replayed against definitions rebuilt from both JSON routes",
         text="TLC checks that include expansion is idempotent and the symbol table stable when expanded rules are fed back, and prints the serialised form and the expected streams; the harness compares json.Marshal(def) and json.Marshal(def.Rules()) with that form (order, byte-exact names and patterns, action kinds and targets), and replays all inputs up to the bound on lexer.New(unmarshal(...)) for both routes, comparing streams and symbol tables with the original.",
